@@ -96,7 +96,7 @@ def _wrap(integ, terms):
     return tuple(terms)
 
 
-CONTINUATIONS = ["direct", "enroll-each", "stream-frames-each", "stream-frames-all"]
+CONTINUATIONS = ["direct", "enroll-each", "stream-frames-each", "stream-frames-all", "flush-after-rejection"]
 
 
 def drive(integ: str, cfg: dict, stmts: list, fault_at: int, fault, ns_after=None, via: str = "direct"):
@@ -135,6 +135,9 @@ def drive(integ: str, cfg: dict, stmts: list, fault_at: int, fault, ns_after=Non
             i += 1
             continue
         try:
+            if i == fault_at + 1 and via == "flush-after-rejection":
+                # the caller saves what was written before the rejection (cuts a frame by hand), then carries on
+                got(stream.flow.to_stream_frame())
             if i > fault_at and via == "enroll-each":
                 stream.enroll()
             if (i > fault_at and via == "stream-frames-each" and phys != 3) or (via == "stream-frames-all" and phys != 3):
@@ -320,7 +323,7 @@ def run_case(ctx, rng):
                 nxt[0] = ("iri", FRESH + "a")
                 seq = seq[:pos + 1] + [tuple(nxt)] + seq[pos + 2:]
             cfg_run = dict(cfg, ns=True) if ns_after else cfg
-            via = rng.choice(["direct", "direct", "enroll-each", "stream-frames-each", "stream-frames-all"])
+            via = rng.choice(["direct", "direct", "enroll-each", "stream-frames-each", "stream-frames-all", "flush-after-rejection"])
             if via.startswith("stream-frames") and (phys == 3 or ns_after):
                 via = "enroll-each"
             seq_run, seq = seq, seq_all
